@@ -59,7 +59,15 @@ where
         .and_then(|n| u64::try_from(n).map_err(ReadError::InvalidLength))?;
 
     let mut names_reader = BufReader::new(reader.take(l_nm));
-    read_names(&mut names_reader)
+    let names = read_names(&mut names_reader)?;
+
+    // `Take` ends early without an error when the underlying stream does: a names block that is
+    // shorter than `l_nm` is a truncated index, not an index with fewer names.
+    if names_reader.get_ref().limit() > 0 {
+        return Err(ReadError::Io(io::Error::from(io::ErrorKind::UnexpectedEof)));
+    }
+
+    Ok(names)
 }
 
 fn read_names<R>(reader: &mut R) -> Result<ReferenceSequenceNames, ReadError>
@@ -101,6 +109,20 @@ where
 #[cfg(test)]
 mod tests {
     use super::*;
+
+    #[test]
+    fn test_read_reference_sequence_names_with_truncated_names() {
+        let src = [
+            0x08, 0x00, 0x00, 0x00, // l_nm = 8
+            b's', b'q', b'0', 0x00, // names[0] = "sq0"
+        ];
+        let mut reader = &src[..];
+
+        assert!(matches!(
+            read_reference_sequence_names(&mut reader),
+            Err(ReadError::Io(e)) if e.kind() == io::ErrorKind::UnexpectedEof
+        ));
+    }
 
     #[test]
     fn test_read_reference_sequence_names() -> Result<(), ReadError> {
